@@ -537,4 +537,463 @@ theorem root_psd : (Matrix.of (rootOfEigh hp cut e)).PosSemidef := by
 end PSD
 end Root
 
+/-! ## Part 5 — the root is independent of the `eigh` output; zero padding -/
+
+section Uniq
+variable {α : Type} [Field α] [LinearOrder α] [IsStrictOrderedRing α] {n : ℕ}
+
+/-! ### `wmax` is the maximum of the eigenvalue list -/
+
+theorem foldl_max_le (xs : List α) (x M : α) (hx : x ≤ M) (h : ∀ y ∈ xs, y ≤ M) : xs.foldl max x ≤ M := by
+  induction xs generalizing x with
+  | nil => exact hx
+  | cons y ys ih =>
+    exact ih (max x y) (max_le hx (h y List.mem_cons_self)) (fun z hz => h z (List.mem_cons_of_mem _ hz))
+
+theorem le_foldl_max (xs : List α) (x : α) : ∀ y ∈ xs, y ≤ xs.foldl max x := by
+  induction xs generalizing x with
+  | nil => intro y hy; cases hy
+  | cons z zs ih =>
+    intro y hy
+    rcases List.mem_cons.mp hy with rfl | hy
+    · exact le_trans (le_max_right x y) (vmax_ge_head _ _)
+    · exact ih (max x z) y hy
+
+theorem foldl_max_mem (xs : List α) (x : α) : xs.foldl max x = x ∨ xs.foldl max x ∈ xs := by
+  induction xs generalizing x with
+  | nil => exact Or.inl rfl
+  | cons z zs ih =>
+    rcases ih (max x z) with h | h
+    · rcases max_choice x z with hm | hm
+      · left; simp only [List.foldl_cons]; rw [h, hm]
+      · right; simp only [List.foldl_cons]; rw [h, hm]; exact List.mem_cons_self
+    · right; exact List.mem_cons_of_mem _ h
+
+theorem le_wmax (w : Fin n → α) (a : Fin n) : w a ≤ wmax w := by
+  unfold wmax vmax
+  have hmem : w a ∈ (List.finRange n).map w := List.mem_map.mpr ⟨a, List.mem_finRange a, rfl⟩
+  cases h : (List.finRange n).map w with
+  | nil => rw [h] at hmem; cases hmem
+  | cons x xs =>
+    rw [h] at hmem
+    rcases List.mem_cons.mp hmem with hx | hx
+    · rw [hx]; exact vmax_ge_head _ _
+    · exact le_foldl_max xs x _ hx
+
+/-- the maximum is attained (or the block is empty and the maximum is 0) -/
+theorem wmax_attained (w : Fin n → α) : (∃ a, wmax w = w a) ∨ (n = 0 ∧ wmax w = 0) := by
+  unfold wmax vmax
+  cases h : (List.finRange n).map w with
+  | nil =>
+    right
+    have : (List.finRange n).length = 0 := by
+      have := congrArg List.length h; simpa using this
+    exact ⟨by simpa using this, rfl⟩
+  | cons x xs =>
+    left
+    have hm : xs.foldl max x ∈ (List.finRange n).map w := by
+      rw [h]
+      rcases foldl_max_mem xs x with e | e
+      · rw [e]; exact List.mem_cons_self
+      · exact List.mem_cons_of_mem _ e
+    obtain ⟨a, _, ha⟩ := List.mem_map.mp hm
+    exact ⟨a, ha.symm⟩
+
+/-- `wmax` is determined by: upper bound, and attained (or empty and 0) -/
+theorem wmax_eq_of (w : Fin n → α) (M : α) (hle : ∀ a, w a ≤ M) (hatt : (∃ a, M = w a) ∨ (n = 0 ∧ M = 0)) :
+    wmax w = M := by
+  rcases wmax_attained w with ⟨a, ha⟩ | ⟨h0, hz⟩
+  · rcases hatt with ⟨b, hb⟩ | ⟨h0, _⟩
+    · exact le_antisymm (ha ▸ hle a) (hb ▸ le_wmax w b)
+    · subst h0; exact a.elim0
+  · rcases hatt with ⟨b, _⟩ | ⟨_, hM⟩
+    · subst h0; exact b.elim0
+    · rw [hz, hM]
+
+/-- two eigenvalue families with the same set of values have the same maximum -/
+theorem wmax_congr {m : ℕ} (w : Fin n → α) (w' : Fin m → α) (h1 : ∀ a, ∃ b, w a = w' b) (h2 : ∀ b, ∃ a, w' b = w a) :
+    wmax w = wmax w' := by
+  apply wmax_eq_of
+  · intro a
+    obtain ⟨b, hb⟩ := h1 a
+    rw [hb]; exact le_wmax w' b
+  · rcases wmax_attained w' with ⟨b, hb⟩ | ⟨h0, hz⟩
+    · obtain ⟨a, ha⟩ := h2 b
+      exact Or.inl ⟨a, hb.trans ha⟩
+    · by_cases hn : n = 0
+      · exact Or.inr ⟨hn, hz⟩
+      · obtain ⟨a⟩ : Nonempty (Fin n) := ⟨⟨0, Nat.pos_of_ne_zero hn⟩⟩
+        obtain ⟨b, _⟩ := h1 a
+        subst h0; exact b.elim0
+
+/-! ### the root does not depend on which eigendecomposition `eigh` returns -/
+
+theorem EighSpec.ortho' {C : Matrix (Fin n) (Fin n) α} {e : EighOut α n} (hs : EighSpec C e) :
+    Matrix.of e.V * (Matrix.of e.V)ᵀ = 1 :=
+  mul_eq_one_comm.mp hs.ortho
+
+/-- **uniqueness**: any two outputs of `eigh` meeting the specification for the same statistics give the same stored
+preconditioner (same retained set, same inverse root) -/
+theorem rootOfEigh_unique (hp : α → α) (cut : α) (C : Matrix (Fin n) (Fin n) α) (e e' : EighOut α n)
+    (hs : EighSpec C e) (hs' : EighSpec C e') : rootOfEigh hp cut e = rootOfEigh hp cut e' := by
+  set V := Matrix.of e.V with hV
+  set V' := Matrix.of e'.V with hV'
+  set Q := Vᵀ * V' with hQ
+  have hVVt : V * Vᵀ = 1 := hs.ortho'
+  have hVVt' : V' * V'ᵀ = 1 := hs'.ortho'
+  -- `W Q = Q W'`
+  have hWQ : diagonal e.w * Q = Q * diagonal e'.w := by
+    have h1 : diagonal e.w * Q = Vᵀ * (V * diagonal e.w * Vᵀ) * V' := by
+      simp only [hQ, Matrix.mul_assoc]
+      rw [← Matrix.mul_assoc Vᵀ V, hs.ortho, Matrix.one_mul]
+    have h2 : Q * diagonal e'.w = Vᵀ * (V' * diagonal e'.w * V'ᵀ) * V' := by
+      simp only [hQ, Matrix.mul_assoc]
+      rw [hs'.ortho, Matrix.mul_one]
+    rw [h1, h2, hs.recon, hs'.recon]
+  have hent : ∀ a b, Q a b ≠ 0 → e.w a = e'.w b := by
+    intro a b hne
+    have := congrFun (congrFun hWQ a) b
+    rw [Matrix.diagonal_mul, Matrix.mul_diagonal] at this
+    have h3 : (e.w a - e'.w b) * Q a b = 0 := by rw [sub_mul, this, mul_comm]; ring
+    rcases mul_eq_zero.mp h3 with h | h
+    · exact sub_eq_zero.mp h
+    · exact absurd h hne
+  -- `Q` is orthogonal: every row and every column has a non-zero entry
+  have hQQt : Q * Qᵀ = 1 := by
+    simp only [hQ, Matrix.transpose_mul, Matrix.transpose_transpose, Matrix.mul_assoc]
+    rw [← Matrix.mul_assoc V' V'ᵀ, hVVt', Matrix.one_mul, hs.ortho]
+  have hQtQ : Qᵀ * Q = 1 := mul_eq_one_comm.mp hQQt
+  have hrow : ∀ a, ∃ b, Q a b ≠ 0 := by
+    intro a
+    by_contra hcon
+    push Not at hcon
+    have := congrFun (congrFun hQQt a) a
+    rw [Matrix.mul_apply] at this
+    simp [hcon] at this
+  have hcol : ∀ b, ∃ a, Q a b ≠ 0 := by
+    intro b
+    by_contra hcon
+    push Not at hcon
+    have := congrFun (congrFun hQtQ b) b
+    rw [Matrix.mul_apply] at this
+    simp [hcon] at this
+  have hmax : wmax e.w = wmax e'.w :=
+    wmax_congr e.w e'.w (fun a => let ⟨b, hb⟩ := hrow a; ⟨b, hent a b hb⟩)
+      (fun b => let ⟨a, ha⟩ := hcol b; ⟨a, (hent a b ha).symm⟩)
+  have hhalf : ∀ a b, Q a b ≠ 0 → half hp cut e.w a = half hp cut e'.w b := by
+    intro a b hne
+    unfold half kept
+    rw [hmax, hent a b hne]
+  -- `D Q = Q D'`
+  have hDQ : diagonal (fun a => half hp cut e.w a * half hp cut e.w a) * Q
+      = Q * diagonal (fun b => half hp cut e'.w b * half hp cut e'.w b) := by
+    ext a b
+    rw [Matrix.diagonal_mul, Matrix.mul_diagonal]
+    by_cases hne : Q a b = 0
+    · rw [hne]; ring
+    · rw [hhalf a b hne]; ring
+  have hmat : Matrix.of (rootOfEigh hp cut e) = Matrix.of (rootOfEigh hp cut e') := by
+    rw [rootOfEigh_eq, rootOfEigh_eq]
+    calc V * diagonal (fun a => half hp cut e.w a * half hp cut e.w a) * Vᵀ
+        = V * diagonal (fun a => half hp cut e.w a * half hp cut e.w a) * Vᵀ * (V' * V'ᵀ) := by
+          rw [hVVt', Matrix.mul_one]
+      _ = V * (diagonal (fun a => half hp cut e.w a * half hp cut e.w a) * Q) * V'ᵀ := by
+          simp only [hQ, Matrix.mul_assoc]
+      _ = (V * Vᵀ) * V' * diagonal (fun b => half hp cut e'.w b * half hp cut e'.w b) * V'ᵀ := by
+          rw [hDQ]; simp only [hQ, Matrix.mul_assoc]
+      _ = _ := by rw [hVVt, Matrix.one_mul]
+  funext i j
+  exact congrFun (congrFun hmat i) j
+
+end Uniq
+
+section Pad
+variable {α : Type} [Field α] [LinearOrder α] [IsStrictOrderedRing α] {n : ℕ}
+
+/-- `blockdiag(f, 0)`: a square array extended by `k` zero rows and columns -/
+def padFn (k : ℕ) (f : Fin n → Fin n → α) : Fin (n + k) → Fin (n + k) → α :=
+  fun i j => Fin.addCases (fun i' => Fin.addCases (fun j' => f i' j') (fun _ => 0) j) (fun _ => 0) i
+
+/-- the eigendecomposition `(V ⊕ 1, w ⊕ 0)` of `blockdiag(C, 0)` built from one of `C` -/
+def padEigh (k : ℕ) (e : EighOut α n) : EighOut α (n + k) where
+  w := Fin.addCases e.w (fun _ => 0)
+  V := fun i a => Fin.addCases
+    (fun i' => Fin.addCases (fun a' => e.V i' a') (fun _ => 0) a)
+    (fun i'' => Fin.addCases (fun _ => 0) (fun a'' => if i'' = a'' then 1 else 0) a) i
+
+@[simp] theorem padFn_ll (k : ℕ) (f : Fin n → Fin n → α) (i j : Fin n) :
+    padFn k f (Fin.castAdd k i) (Fin.castAdd k j) = f i j := by simp [padFn]
+@[simp] theorem padFn_lr (k : ℕ) (f : Fin n → Fin n → α) (i : Fin n) (j : Fin k) :
+    padFn k f (Fin.castAdd k i) (Fin.natAdd n j) = 0 := by simp [padFn]
+@[simp] theorem padFn_r (k : ℕ) (f : Fin n → Fin n → α) (i : Fin k) (j : Fin (n + k)) :
+    padFn k f (Fin.natAdd n i) j = 0 := by simp [padFn]
+
+@[simp] theorem padEigh_w_l (k : ℕ) (e : EighOut α n) (a : Fin n) : (padEigh k e).w (Fin.castAdd k a) = e.w a := by
+  simp [padEigh]
+@[simp] theorem padEigh_w_r (k : ℕ) (e : EighOut α n) (a : Fin k) : (padEigh k e).w (Fin.natAdd n a) = 0 := by
+  simp [padEigh]
+@[simp] theorem padEigh_V_ll (k : ℕ) (e : EighOut α n) (i a : Fin n) :
+    (padEigh k e).V (Fin.castAdd k i) (Fin.castAdd k a) = e.V i a := by simp [padEigh]
+@[simp] theorem padEigh_V_lr (k : ℕ) (e : EighOut α n) (i : Fin n) (a : Fin k) :
+    (padEigh k e).V (Fin.castAdd k i) (Fin.natAdd n a) = 0 := by simp [padEigh]
+@[simp] theorem padEigh_V_rl (k : ℕ) (e : EighOut α n) (i : Fin k) (a : Fin n) :
+    (padEigh k e).V (Fin.natAdd n i) (Fin.castAdd k a) = 0 := by simp [padEigh]
+@[simp] theorem padEigh_V_rr (k : ℕ) (e : EighOut α n) (i a : Fin k) :
+    (padEigh k e).V (Fin.natAdd n i) (Fin.natAdd n a) = if i = a then 1 else 0 := by simp [padEigh]
+
+theorem castAdd_ne_natAdd (k : ℕ) (a : Fin n) (b : Fin k) : Fin.castAdd k a ≠ Fin.natAdd n b := by
+  intro h
+  have := congrArg Fin.val h
+  simp at this
+  omega
+
+theorem one_apply_ll (k : ℕ) (a b : Fin n) :
+    (1 : Matrix (Fin (n + k)) (Fin (n + k)) α) (Fin.castAdd k a) (Fin.castAdd k b) = if a = b then 1 else 0 := by
+  simp [Matrix.one_apply, Fin.ext_iff]
+theorem one_apply_rr (k : ℕ) (a b : Fin k) :
+    (1 : Matrix (Fin (n + k)) (Fin (n + k)) α) (Fin.natAdd n a) (Fin.natAdd n b) = if a = b then 1 else 0 := by
+  simp [Matrix.one_apply, Fin.ext_iff]
+theorem one_apply_lr (k : ℕ) (a : Fin n) (b : Fin k) :
+    (1 : Matrix (Fin (n + k)) (Fin (n + k)) α) (Fin.castAdd k a) (Fin.natAdd n b) = 0 := by
+  rw [Matrix.one_apply, if_neg (castAdd_ne_natAdd k a b)]
+theorem one_apply_rl (k : ℕ) (a : Fin k) (b : Fin n) :
+    (1 : Matrix (Fin (n + k)) (Fin (n + k)) α) (Fin.natAdd n a) (Fin.castAdd k b) = 0 := by
+  rw [Matrix.one_apply, if_neg (fun h => castAdd_ne_natAdd k b a h.symm)]
+
+/-- the padded eigendecomposition meets the `eigh` specification for the padded statistics -/
+theorem padEigh_spec (k : ℕ) (C : Matrix (Fin n) (Fin n) α) (e : EighOut α n) (hs : EighSpec C e) :
+    EighSpec (Matrix.of (padFn k C)) (padEigh k e) where
+  ortho := by
+    have hO : ∀ a b : Fin n, ∑ i, e.V i a * e.V i b = if a = b then 1 else 0 := by
+      intro a b
+      have := congrFun (congrFun hs.ortho a) b
+      simpa [Matrix.mul_apply, Matrix.one_apply] using this
+    ext a b
+    rw [Matrix.mul_apply, Fin.sum_univ_add]
+    simp only [Matrix.transpose_apply, Matrix.of_apply]
+    induction a using Fin.addCases with
+    | left a =>
+      induction b using Fin.addCases with
+      | left b => simp [hO, one_apply_ll]
+      | right b => simp [one_apply_lr]
+    | right a =>
+      induction b using Fin.addCases with
+      | left b => simp [one_apply_rl]
+      | right b => simp [one_apply_rr, eq_comm]
+  recon := by
+    have hR : ∀ i j : Fin n, ∑ a, e.V i a * e.w a * e.V j a = C i j := by
+      intro i j
+      have := congrFun (congrFun hs.recon i) j
+      rw [FD.mdt_apply] at this
+      simpa using this
+    ext i j
+    rw [FD.mdt_apply, Fin.sum_univ_add]
+    simp only [Matrix.of_apply]
+    induction i using Fin.addCases with
+    | left i =>
+      induction j using Fin.addCases with
+      | left j => simp [hR]; exact (padFn_ll k C i j).symm
+      | right j => simp; exact (padFn_lr k C i j).symm
+    | right i => simp; exact (padFn_r k C i j).symm
+
+/-- the largest eigenvalue is unchanged by the padding zeros (eigenvalues of statistics are non-negative) -/
+theorem wmax_padEigh (k : ℕ) (e : EighOut α n) (hw : ∀ a, 0 ≤ e.w a) : wmax (padEigh k e).w = wmax e.w := by
+  apply wmax_eq_of
+  · intro a
+    induction a using Fin.addCases with
+    | left a => simpa using le_wmax e.w a
+    | right a => simpa using wmax_nonneg e.w hw
+  · rcases wmax_attained e.w with ⟨a, ha⟩ | ⟨h0, hz⟩
+    · exact Or.inl ⟨Fin.castAdd k a, by simpa using ha⟩
+    · by_cases hk : k = 0
+      · exact Or.inr ⟨by omega, hz⟩
+      · exact Or.inl ⟨Fin.natAdd n ⟨0, Nat.pos_of_ne_zero hk⟩, by rw [padEigh_w_r]; exact hz⟩
+
+/-- the stored preconditioner of the padded decomposition is `blockdiag(root, 0)` -/
+theorem rootOfEigh_padEigh (hp : α → α) (cut : α) (hcut : 0 ≤ cut) (k : ℕ) (e : EighOut α n) (hw : ∀ a, 0 ≤ e.w a) :
+    rootOfEigh hp cut (padEigh k e) = padFn k (rootOfEigh hp cut e) := by
+  have hl : ∀ a : Fin n, half hp cut (padEigh k e).w (Fin.castAdd k a) = half hp cut e.w a := by
+    intro a; simp [half, kept, wmax_padEigh k e hw]
+  have hr : ∀ a : Fin k, half hp cut (padEigh k e).w (Fin.natAdd n a) = 0 := by
+    intro a
+    have : ¬ (cut * wmax e.w < 0) := not_lt.mpr (mul_nonneg hcut (wmax_nonneg e.w hw))
+    simp [half, kept, wmax_padEigh k e hw, this]
+  funext i j
+  simp only [rootOfEigh, FD.sumFin_eq]
+  rw [Fin.sum_univ_add]
+  simp only [hl, hr, zero_mul, Finset.sum_const_zero, add_zero]
+  induction i using Fin.addCases with
+  | left i =>
+    induction j using Fin.addCases with
+    | left j => simp [rootOfEigh, FD.sumFin_eq]
+    | right j => simp
+  | right i => simp
+
+end Pad
+
+section PadStats
+open Matrix
+variable {α : Type} [Field α] [LinearOrder α] [IsStrictOrderedRing α] {n : ℕ}
+
+/-- the Gram matrix (statistics contribution) of a gradient with `k` zero-padded rows is `blockdiag(G Gᵀ, 0)` -/
+theorem padFn_gram (k m : ℕ) (G : Fin n → Fin m → α) (G' : Fin (n + k) → Fin m → α)
+    (hl : ∀ i c, G' (Fin.castAdd k i) c = G i c) (hr : ∀ i c, G' (Fin.natAdd n i) c = 0) :
+    (fun i j => ∑ c, G' i c * G' j c) = padFn k (fun i j => ∑ c, G i c * G j c) := by
+  funext i j
+  induction i using Fin.addCases with
+  | left i =>
+    induction j using Fin.addCases with
+    | left j => simp [hl]
+    | right j => simp [hr]
+  | right i => simp [hr]
+
+/-- `_ema_update` of padded statistics is the padded `_ema_update` -/
+theorem padFn_ema (k : ℕ) (decay : α) (S N : Fin n → Fin n → α) :
+    (fun i j => emaScalar decay (padFn k S i j) (padFn k N i j)) = padFn k (fun i j => emaScalar decay (S i j) (N i j)) := by
+  funext i j
+  induction i using Fin.addCases with
+  | left i =>
+    induction j using Fin.addCases with
+    | left j => simp
+    | right j => simp [emaScalar]
+  | right i => simp [emaScalar]
+
+end PadStats
+
+/-! ## Part 6 — statistics over histories and the refresh cadence of Tearfree Shampoo -/
+open Finset
+section Stats
+variable {α : Type} [Field α] [LinearOrder α] [IsStrictOrderedRing α]
+
+/-- one entry of one block statistic along a history: at update number `c` the entry becomes
+`_ema_update(S, new c)` when `c % update_statistics_freq == 0` and stays otherwise (the gate of `shampooTx`) -/
+def statRun (decay : α) (sf : ℕ) (new : ℕ → α) (S₀ : α) : ℕ → α
+  | 0 => S₀
+  | T + 1 => if T % sf = 0 then emaScalar decay (statRun decay sf new S₀ T) (new T) else statRun decay sf new S₀ T
+
+/-- number of statistics refreshes among the updates `0 … t-1` -/
+def refreshes (sf t : ℕ) : ℕ := ((range t).filter fun s => s % sf = 0).card
+
+theorem refreshes_succ (sf t : ℕ) : refreshes sf (t + 1) = refreshes sf t + if t % sf = 0 then 1 else 0 := by
+  unfold refreshes
+  rw [range_add_one, filter_insert]
+  split
+  · rw [card_insert_of_notMem (by simp)]
+  · simp
+
+theorem refreshes_mono (sf : ℕ) {s t : ℕ} (h : s ≤ t) : refreshes sf s ≤ refreshes sf t := by
+  unfold refreshes
+  exact card_le_card (filter_subset_filter _ (range_mono h))
+
+/-- **closed form, `second_moment_decay = 1`**: the statistic is the plain sum of the contributions of the refresh steps -/
+theorem statRun_sum (sf : ℕ) (new : ℕ → α) (S₀ : α) (T : ℕ) :
+    statRun 1 sf new S₀ T = S₀ + ∑ t ∈ range T, if t % sf = 0 then new t else 0 := by
+  induction T with
+  | zero => simp [statRun]
+  | succ T ih =>
+    rw [statRun, sum_range_succ, ih]
+    split
+    · simp [emaScalar]; ring
+    · simp
+
+/-- **closed form, `second_moment_decay = β ≠ 1`**: exponential moving average over the refresh steps only — a refresh at
+step `t` enters with weight `(1-β)·β^(number of later refreshes)`; steps that are not refresh steps do not decay anything -/
+theorem statRun_ema (β : α) (hβ : β ≠ 1) (sf : ℕ) (new : ℕ → α) (S₀ : α) (T : ℕ) :
+    statRun β sf new S₀ T = β ^ refreshes sf T * S₀ +
+      ∑ t ∈ range T, if t % sf = 0 then (1 - β) * β ^ (refreshes sf T - refreshes sf (t + 1)) * new t else 0 := by
+  have hb : (β == 1) = false := by simpa using hβ
+  induction T with
+  | zero => simp [statRun, refreshes]
+  | succ T ih =>
+    rw [statRun, sum_range_succ, refreshes_succ]
+    by_cases hT : T % sf = 0
+    · simp only [hT, if_true, emaScalar, hb, Bool.false_eq_true, if_false, ih, Nat.sub_self, pow_zero, mul_one]
+      have hsum : ∀ t ∈ range T,
+          (if t % sf = 0 then (1 - β) * β ^ (refreshes sf T + 1 - refreshes sf (t + 1)) * new t else 0)
+            = β * (if t % sf = 0 then (1 - β) * β ^ (refreshes sf T - refreshes sf (t + 1)) * new t else 0) := by
+        intro t ht
+        have hle : refreshes sf (t + 1) ≤ refreshes sf T := refreshes_mono sf (by simpa using mem_range.mp ht)
+        split
+        · rw [Nat.sub_add_comm hle, pow_succ]; ring
+        · ring
+      rw [sum_congr rfl hsum, ← mul_sum, pow_succ]
+      ring
+    · simp only [hT, if_false, add_zero, ih]
+
+/-- with `update_statistics_freq = 1` every step refreshes: the familiar `Σ (1-β) β^(T-1-t) new_t` -/
+theorem refreshes_one (t : ℕ) : refreshes 1 t = t := by
+  unfold refreshes
+  simp [Nat.mod_one]
+
+end Stats
+
+section Arrays
+variable {α : Type} [Zero α] [One α] [Add α] [Sub α] [Mul α] [LT α] [DecidableLT α] [BEq α] [Max α]
+
+theorem rd_tab (n : ℕ) (f : ℕ → α) (k : ℕ) (h : k < n) : rd (tab n f) k = f k := by
+  simp [rd, tab, h]
+
+/-- `_ema_update` acts entry by entry -/
+theorem emaUpdate_get (decay : α) (old new : Array α) (k : ℕ) (h : k < old.size) :
+    rd (emaUpdate decay old new) k = emaScalar decay (rd old k) (rd new k) :=
+  rd_tab _ _ k h
+
+variable {P : Type}
+
+/-- **the cadence of `shampoo._update`** (ties C15 to C04): with `c = state.count`,
+statistics are refreshed from this step's blocked gradient iff `c % update_statistics_freq = 0`; then — from the statistics
+AFTER that refresh — the roots are recomputed iff `c % update_preconditioners_freq = 0`; the gradient is preconditioned
+with the resulting roots; the count advances by one. -/
+theorem shampoo_update_cadence (eigh : EighFn α) (hp : ℕ → α → α) (cut decay : α) (bs sf pf : ℕ) (ps : List ℕ)
+    (u : List α) (st : ShState α) (x : P) :
+    let m := Shapes.blocksMetadata bs ps
+    let Bt := Shapes.blockify (ofFlatL ps u) m
+    let xs := (List.range m.numBlocks).map fun n => extractBlock Bt.flat.toArray Bt.shape m.blockSizes m.blocksAxis n
+    let bl₁ := if st.count % sf = 0 then List.zipWith (blockStatsUpdate decay m.blockSizes) xs st.blocks else st.blocks
+    let bl₂ := if st.count % pf = 0 then bl₁.map (blockPrecondUpdate eigh (hp (shampooExponent ps)) cut m.blockSizes) else bl₁
+    ((shampooTx (P := P) eigh hp cut decay bs sf pf ps).update u st x).2 = ⟨st.count + 1, bl₂⟩ ∧
+    ((shampooTx (P := P) eigh hp cut decay bs sf pf ps).update u st x).1 =
+      (Shapes.deblockify (ofFlat Bt.shape
+        (assembleBlocks (List.zipWith (blockApply m.blockSizes) xs bl₂) Bt.shape m.blockSizes m.blocksAxis)) m).flat := by
+  intro m Bt xs bl₁ bl₂
+  exact ⟨rfl, rfl⟩
+
+/-- on a preconditioner-refresh step every stored root is `_pth_inv_root` of the statistic stored NEXT TO it, i.e. of the
+statistics after this step's update (never of the previous step's) -/
+theorem refresh_roots_are_of_current_statistics (eigh : EighFn α) (hp : ℕ → α → α) (cut decay : α) (bs sf pf : ℕ)
+    (ps : List ℕ) (u : List α) (st : ShState α) (x : P) (hpf : st.count % pf = 0) :
+    ∀ b ∈ ((shampooTx (P := P) eigh hp cut decay bs sf pf ps).update u st x).2.blocks,
+      b.roots = List.zipWith (fun d C => blockRoot eigh (hp (shampooExponent ps)) cut d C)
+        (Shapes.blocksMetadata bs ps).blockSizes b.stats := by
+  intro b hb
+  simp only [shampooTx, hpf, if_true] at hb
+  obtain ⟨b₀, _, rfl⟩ := List.mem_map.mp hb
+  rfl
+
+/-- on any other step the roots are carried over unchanged, whatever happens to the statistics -/
+theorem nonrefresh_keeps_roots (eigh : EighFn α) (hp : ℕ → α → α) (cut decay : α) (bs sf pf : ℕ)
+    (ps : List ℕ) (u : List α) (st : ShState α) (x : P) (hpf : st.count % pf ≠ 0)
+    (hlen : st.blocks.length = (Shapes.blocksMetadata bs ps).numBlocks) :
+    (((shampooTx (P := P) eigh hp cut decay bs sf pf ps).update u st x).2.blocks.map fun b => b.roots)
+      = st.blocks.map fun b => b.roots := by
+  simp only [shampooTx, hpf, if_false]
+  split
+  · apply List.ext_getElem
+    · simp [hlen]
+    · intro i h1 h2
+      simp [blockStatsUpdate]
+  · rfl
+
+/-- and on a step that is not a statistics-refresh step the statistics are carried over unchanged -/
+theorem nonrefresh_keeps_statistics (eigh : EighFn α) (hp : ℕ → α → α) (cut decay : α) (bs sf pf : ℕ)
+    (ps : List ℕ) (u : List α) (st : ShState α) (x : P) (hsf : st.count % sf ≠ 0) :
+    (((shampooTx (P := P) eigh hp cut decay bs sf pf ps).update u st x).2.blocks.map fun b => b.stats)
+      = st.blocks.map fun b => b.stats := by
+  simp only [shampooTx, hsf, if_false]
+  split
+  · simp [blockPrecondUpdate, Function.comp_def]
+  · rfl
+
+end Arrays
+
 end PrecondVerif.Tearfree
